@@ -9,3 +9,9 @@ func VerifSetSpawnHook(h func(run func()) bool) { verifhook.SpawnHook = h }
 
 // VerifSetYieldHook installs the hook called at the instrumented synchronisation points.
 func VerifSetYieldHook(h func(point string)) { verifhook.YieldHook = h }
+
+// VerifSetParts exposes the two fields of a Set: whether it carries a getEmpty function and the
+// SetMinimal it wraps (nil for the zero value).
+func VerifSetParts[V any](s Set[V]) (hasGetEmpty bool, set SetMinimal[V]) {
+	return s.getEmpty != nil, s.set
+}
